@@ -53,9 +53,10 @@ KNOWN DEFECT CLASSES, excluded by construction behind flags (flip to False once 
                only the `left` field of that query is skipped.
 * EXCLUDE_N1   (new) absolute zone (relativize=False) whose origin is learned from `$ORIGIN`
                (from_text(origin=None)): the origin is passed explicitly instead.
-* EXCLUDE_N2   (new) `zone.writer()` on a freshly constructed dns.btreezone.Zone raises ValueError
-               ("original BTree is not immutable") and leaks the write lock: the one-big-
-               transaction load uses `zone.writer(replacement=True)` instead.
+* EXCLUDE_N2   (new; already fixed in /repo by 0119f3a, so shipped False) `zone.writer()` on a
+               freshly constructed dns.btreezone.Zone raised ValueError ("original BTree is not
+               immutable") and leaked the write lock; when set, the one-big-transaction load uses
+               `zone.writer(replacement=True)` instead.
 """
 
 from hypothesis import strategies as st
@@ -97,16 +98,16 @@ ASSUMPTIONS = [
     "is_delegation is read as 'the query name is at or below a cut', left/right as bounds among "
     "non-occluded names (property statement; see SCOPING in the module docstring)",
     "the apex node always exists; dns.name.Name.predecessor/successor only supply query names",
-    "excluded by construction while the corresponding defect is open: D14, D15, D16, D17, N1, N2 "
+    "excluded by construction while the corresponding defect is open: D14, D15, D16, D17, N1 "
     "(counted as excluded:* classes)",
 ]
 
-EXCLUDE_D14 = True
-EXCLUDE_D15 = True
-EXCLUDE_D16 = True
-EXCLUDE_D17 = True
-EXCLUDE_N1 = True
-EXCLUDE_N2 = True
+EXCLUDE_D14 = False
+EXCLUDE_D15 = False
+EXCLUDE_D16 = False
+EXCLUDE_D17 = False
+EXCLUDE_N1 = False
+EXCLUDE_N2 = False  # fixed in /repo (0119f3a): the class is generated again
 
 # ---------------------------------------------------------------------------
 # pools
